@@ -20,6 +20,8 @@ def encodings(parts):
     encs = []
     if n_ell <= 1 and (len(parts) == 1 or all(reduced_ok(p) for p in parts)) and len(parts) <= 3:
         encs += ["packed", "variadic"]
+        if len(parts) > 1 or parts[0]["k"] in "ie" or full(parts[0]):
+            encs.append("mutable")
         if len(parts) == 1 and parts[0]["k"] == "s" and not parts[0]["step"]:
             encs.append("packed2")
     if all(p["k"] in "ie" or full(p) for p in parts):
@@ -33,7 +35,7 @@ def with_enc(cases):
     out = []
     for c in cases:
         for e in encodings(c["args"]["parts"]):
-            if c["op"] == "slice_index" and e == "variadic":
+            if c["op"] == "slice_index" and e in ("variadic", "mutable"):
                 continue            # the variadic front end exists at the view level only
             out.append(dict(op=c["op"], shapes=c["shapes"], args=dict(c["args"], enc=e)))
     return out
@@ -113,7 +115,7 @@ def run(tier, seed):
                "a multi-axis family over a menu of parts with the ellipsis in every position, seeded multi-axis specifications, and an index-math family (op slice_index: "
                "index::apply_shape_slice / index::apply_slice on a shape without an array, extents 2^24+1 .. 2^31-9 in 1-3 axes, bounds around 0, n/2, n of either sign, every step in -3..3, "
                "result shape plus the source index of the first / middle / last result index); every case runs under every encoding "
-               "that can express it (packed tuple, (start,stop) pairs, variadic front end, list-of-either, list of array<int,3>); non-trivial = distinct (shape, spec) with at least one non-default range part")
+               "that can express it (packed tuple, (start,stop) pairs, variadic front end of view::slice, variadic front end of view::mutable_slice read back, list-of-either, list of array<int,3>); non-trivial = distinct (shape, spec) with at least one non-default range part")
     ck.exhaustive = True
     ck.extra.update(table_cases=len(table), seeded_cases=len(extra), big_extent_cases=len(big), events_per_encoding=True)
     ck.assumptions += ["None-ness of slice parts is a compile-time property in nmtools: multi-part packed specifications are limited to the part types int, ellipsis, (None,None,None), (None,None,step), (start,stop,step)",
